@@ -332,14 +332,18 @@ def main():
         samples += rt_info.get("samples", [])[:4]
     trusted_base = ["pyvc VC generator (/verif/pyvc): encoding of the Python subset, DESIGN.md section 4",
                     "z3 5.1.0 / cvc5 1.0.3", "ast module of python3-vt"] + \
-                   [f"trusted contract (body not verified): {c} -> {C.CONTRACTS[c].file}:{C.CONTRACTS[c].func}" for c in trusted]
+                   [f"trusted contract (body not verified): {c} -> {C.CONTRACTS[c].file}:{C.CONTRACTS[c].func}" for c in trusted
+                    if c not in C.DISCHARGED]
+    # a summary whose every clause is proved from the body by another contract of this run (pyvc/contract.py:apply_discharges) is no assumption
+    summaries_proved = [f"{c} -> {C.CONTRACTS[c].file}:{C.CONTRACTS[c].func}: every clause proved from the body as {C.DISCHARGED[c]}"
+                        for c in trusted if c in C.DISCHARGED and C.DISCHARGED[c] in cids]
     for caller, cs in callees.items():
         for callee, how in cs:
-            if how == "trusted":
+            if how == "trusted" and callee not in C.DISCHARGED:
                 trusted_base.append(f"{caller} relies on trusted contract {callee}")
     cov = {"obligations": n_obl, "discharged": discharged,
            "checker_cmd": f"python3-vt checks/check.py {prop} --tier {tier}",
-           "trusted_base": sorted(set(trusted_base)), "samples": samples,
+           "trusted_base": sorted(set(trusted_base)), "summaries_proved": summaries_proved, "samples": samples,
            "functions_under_contract": functions, "by_backend": by_backend, "solver_ms": solver_ms,
            "bounded": bounded, "bounded_notes": bounded_notes,
            "undecided": undecided, "callees": {k: sorted(map(list, v)) for k, v in callees.items()},
